@@ -50,6 +50,7 @@ IDIOMS = {
     'I9': 'X.checked_sub(Y).unwrap_or_default()  =>  idiom_checked_sub_or_default(X, Y)',
     'I10': '&sha256d::Hash::hash(&X)[A..B]  =>  &idiom_sha256d_slice(&X, A, B)   (Index<Range> on the hash newtype)',
     'I11': 'X.to_le_bytes()  =>  idiom_le_bytes(X)   (result as Vec<u8>; only ever passed to extend())',
+    'I12': 'X.try_into().expect(MSG)  =>  idiom_try_into_expect(X)   (slice -> [u8; N]; the panic becomes the precondition len == N)',
     'A1': 'abstract-expression: `expr` => havoc::<T>() (unconstrained value)',
 }
 
@@ -447,6 +448,11 @@ def apply_idiom(ed, text, base, body_rel, loops, rest, item_id, log, rel, src):
             pre = re.match(r'^([\w\.]+)\.extend\(', anchor)
             b = a + pre.end()
             new = 'idiom_extend(&mut %s, ' % h.group(1)
+        elif rule == 'I12':
+            h = re.match(r'^([\w\.]+)\.try_into\(\)\.expect\("[^"]*"\)$', flat)
+            if not h:
+                raise GenError('I12 shape mismatch: %s' % flat)
+            new = 'idiom_try_into_expect(%s)' % h.group(1)
         elif rule == 'I11':
             h = re.match(r'^([\w\.]+)\.to_le_bytes\(\)$', flat)
             if not h:
@@ -479,7 +485,7 @@ def apply_idiom(ed, text, base, body_rel, loops, rest, item_id, log, rel, src):
 
 
 def build_type(repo, blk, log):
-    m = re.match(r'(\S+)\s*::\s*(struct|enum)\s+(\w+)\s*$', blk.header)
+    m = re.match(r'(\S+)\s*::\s*(struct|enum|const|static)\s+(\w+)\s*$', blk.header)
     if not m:
         raise GenError('bad //@extract type header: %s' % blk.header)
     rel, kind, name = m.groups()
